@@ -141,16 +141,16 @@ example : ∀ p ∈ [(Token.ADD, 'b'), (Token.MUL, 'c')], 1 ≤ p.1.precedence :
 /-! ## Printing and parsing again, on the parser and the printer themselves -/
 
 /-- The decidable class of expressions the round trip is proved for (`RT.rtOK`, see there). -/
-def Printable (e : Expr) : Prop := RT.rtOK e = true
+def Printable (e : Expr) : Prop := RT.rtOK false e = true
 
-instance (e : Expr) : Decidable (Printable e) := inferInstanceAs (Decidable (RT.rtOK e = true))
+instance (e : Expr) : Decidable (Printable e) := inferInstanceAs (Decidable (RT.rtOK false e = true))
 
 /-- **C03 (re-parsing, on the real printer and parser).** For every printable expression `e` —
 any depth, any names and literal values — `ParseExpr(e.String())` returns exactly `e`: the text
 `Expr.print` writes carries the grouping, whatever parameters are bound. -/
 theorem expr_print_parse (e : Expr) (h : Printable e) (params : List (Str × BoundValue))
     (lower : List (Char × Char)) : parseExprText e.print params lower = .ok e :=
-  RT.parseExprText_print e h params lower
+  RT.parseExprText_print e h params lower (fun h => by cases h)
 
 /-- The same from any parser state (the state-level form): `ParseExpr` started before
 `e.String()` followed by `)`, `,` or the end of the input returns `e`, stands before that
@@ -158,7 +158,7 @@ separator with its token pushed back — or the fuel given was too small. -/
 theorem expr_print_parse_state (fuel : Nat) (s : PState) (e : Expr) (k : List Char) (h : Printable e)
     (hk : RT.SepC k) (hs : RT.AtW s (e.print ++ k)) :
     wp (parseExpr fuel) s (fun e' s' => e' = e ∧ RT.At s' k ∧ RT.Same s s') (· = .fuel) :=
-  (RT.rt_specs fuel).1 s e k h hk hs
+  (RT.rt_specs false fuel).1 s e k (fun h => by cases h) h hk hs
 
 -- non-vacuity: `a + b * (c - 1) AND d = 'x'`
 example : Printable
